@@ -23,6 +23,8 @@ type freshness struct {
 	retSum    map[*ssa.Function]int // 0 unknown, 1 fresh, 2 not fresh, 3 in progress (optimistic)
 	phiBusy   map[*ssa.Phi]bool
 	fieldBusy map[string]bool
+	paramBusy map[*ssa.Parameter]bool
+	eng       *Engine
 }
 
 func isMalType(t types.Type) bool {
@@ -142,6 +144,41 @@ func (f *freshness) fresh(v ssa.Value, depth int) (bool, string) {
 	case *ssa.ChangeType:
 		return f.fresh(x.X, depth+1)
 	case *ssa.Parameter:
+		// the buffer parameter of an unexported function that is only ever called, and at every call is handed
+		// storage that is fresh in the caller (`out = appendElems(out, src, from, to)`)
+		if fn := x.Parent(); fn != nil && fn.Parent() == nil && fn.Object() != nil && !fn.Object().Exported() && inModule(fn) && depth < 6 {
+			if f.eng == nil {
+				f.eng = newEngine(f.w)
+			}
+			sites := f.eng.callSites(fn)
+			idx := -1
+			for i, p := range fn.Params {
+				if p == x {
+					idx = i
+				}
+			}
+			if !f.eng.escapedFn(fn) && len(sites) > 0 && len(sites) <= 12 && idx >= 0 && !f.paramBusy[x] {
+				if f.paramBusy == nil {
+					f.paramBusy = map[*ssa.Parameter]bool{}
+				}
+				f.paramBusy[x] = true
+				defer delete(f.paramBusy, x)
+				all := true
+				for _, site := range sites {
+					if _, isCall := site.(*ssa.Call); !isCall || idx >= len(site.Common().Args) {
+						all = false
+						break
+					}
+					if ok, _ := f.fresh(site.Common().Args[idx], depth+1); !ok {
+						all = false
+						break
+					}
+				}
+				if all {
+					return true, "parameter " + x.Name() + ": fresh storage of the caller at every call"
+				}
+			}
+		}
 		return false, "parameter " + x.Name() + " (storage owned by the caller)"
 	case *ssa.FreeVar:
 		return false, "captured variable"
